@@ -399,7 +399,7 @@ func c14Nest(p *load.Program, r *oblig.Report, name string) {
 		if !ok {
 			return
 		}
-		if mu.Map == result {
+		if mu.Map == result || (result != nil && clean(an.ShapeCanon(mu.Map)) == clean(an.ShapeCanon(result))) {
 			// result[member.ID] = fresh map
 			nOuter++
 			k := sub(an.ShapeCanon(mu.Key))
@@ -489,7 +489,7 @@ func c14Leader(p *load.Program, r *oblig.Report) {
 	okFB := false
 	for _, b := range an.Blocks(fb) {
 		_, ci := an.IfCond(b)
-		if ci == nil || ci.Op != token.EQL {
+		if ci.Edge(token.EQL) < 0 {
 			continue
 		}
 		x, y := clean(an.ShapeCanon(ci.X)), clean(an.ShapeCanon(ci.Y))
@@ -497,8 +497,8 @@ func c14Leader(p *load.Program, r *oblig.Report) {
 			x, y = y, x
 		}
 		if x == "protocolName" && y == "balancers[idx(balancers)].ProtocolName()" {
-			// the true edge returns that balancer
-			for _, ins := range b.Succs[0].Instrs {
+			// the equal-names edge returns that balancer
+			for _, ins := range b.Succs[ci.Edge(token.EQL)].Instrs {
 				if ret, isRet := ins.(*ssa.Return); isRet && len(ret.Results) == 2 {
 					okFB = clean(an.ShapeCanon(ret.Results[0])) == "balancers[idx(balancers)]"
 				}
